@@ -138,6 +138,12 @@ def run(ctx):
     fam = list(itertools.product(range(512), STYLES, [True, False], [SHA1, SHA256]))
     if ctx.tier != 'thorough':
         fam = r.sample(fam, 500) + [(0b000110001, 'roundup', False, SHA256), (0b000000101, 'strict', False, SHA1), (0b001100000, 'openssh', True, SHA256)]
+        # every modulus of the universe as the only one on offer, and next to 2048 (the OpenSSH follow-up probe), under every style and banner: each size is handed out at least once
+        for i in range(len(UNIVERSE)):
+            for style in STYLES:
+                for osh in (True, False):
+                    fam.append((1 << i, style, osh, SHA256 if (i + osh) % 2 else SHA1))
+                    fam.append((1 << i | 1 << UNIVERSE.index(2048), style, osh, SHA1 if (i + osh) % 2 else SHA256))
     cases = []
     for mask, style, osh, alg in fam:
         M = [m for i, m in enumerate(UNIVERSE) if mask >> i & 1]
